@@ -897,6 +897,10 @@ def out_of_domain(mi, ii):
     for k, x in enumerate(iits):
         if x[0] == 'exc' and x[1].startswith("'error'('type_error'('list',") and (k >= len(mits) or mits[k] != x):
             return 'skip-domain'
+    for k, x in enumerate(iits):
+        if x[0] == 'exc' and x[1].startswith("'error'('domain_error'('not_less_than_zero',") \
+                and (k >= len(mits) or mits[k] != x):
+            return 'skip-domain'      # arg/3, functor/3: which of two errors has priority
     if mits and iits and len(mits) == len(iits) and mits[:-1] == iits[:-1] and mits[-1] != iits[-1] \
             and is_arith_error(mits[-1]) and is_arith_error(iits[-1]):
         return 'skip-arith'
@@ -1011,6 +1015,13 @@ def rw_arith_call(t):
     return t
 
 
+def rw_throw_call(t):
+    """throw(B) => call(throw(B)): identical; the ball then reaches '$set_ball' through a heap term."""
+    if t[0] == 's' and t[1] == 'throw' and len(t[2]) == 1:
+        return S('call', t)
+    return t
+
+
 def rw_clause_init_vars(h, b, cid):
     """H :- B  =>  H :- vinit(V1), ..., vinit(Vn), B for the body variables of a clause with a
     disjunction / if-then-else (vinit(_) is a fact): identical answers; every variable then has its
@@ -1030,7 +1041,8 @@ REWRITES = [
     ("inlined-type-test-clobbers-live-register", [rw_test_call]),
     ("arithmetic-intermediate-clobbers-live-register", [rw_arith_call]),
     ("variable-first-occurring-in-a-branch-is-not-initialised-on-the-other-path", ["init"]),
-    ("several-compiler-defects", [rw_cond_call, rw_test_call, rw_arith_call, "init"]),
+    ("ball-behind-a-stack-variable-is-thrown-unbound", [rw_throw_call]),
+    ("several-compiler-defects", [rw_cond_call, rw_test_call, rw_arith_call, "init", rw_throw_call]),
 ]
 
 
